@@ -854,4 +854,148 @@ example : reluPo2Xu 4 none (D.var (-1 / 2)) = ⟨-2, 4⟩ := by decide +kernel
 example : StraightThrough (D.roundThroughS .even { stoch := true, phase := true, u := 1 / 2 }) :=
   C06_roundThroughS_straight _ _
 
+/-! ## one object over a history (strengthening round, seed C06-7)
+
+  `HObj` (Model/Grad): an object IS its current attributes; a history is any list of attribute updates
+  (assignments, setters, `_set_trainable_parameter()` — arbitrary functions of the attributes) and calls.
+  Because every transcribed `__call__` reads its options from `self` at call time, the k-th call emits the
+  (value, gradient) of a FRESH object constructed with the attributes now in force — for every class of
+  this file at once (the statement is generic in the attribute type and in the transcription `f`).  The
+  mutated object `HFrozen` (options captured at construction) agrees exactly as long as no update changes
+  what `f` reads, which is why fresh objects called once cannot tell the two apart. -/
+
+/-- attributes after a history = the updates applied in order (calls change none) -/
+theorem C06_history_attrs {A I : Type} (f : A → I → D) (ops : List (HOp A I)) (o : HObj A) :
+    (HObj.run f o ops).attrs = ops.foldl HOp.apply o.attrs := by
+  induction ops generalizing o with
+  | nil => rfl
+  | cons op ops ih =>
+    simp only [HObj.run, List.foldl_cons] at ih ⊢
+    rw [ih]
+    cases op <;> rfl
+
+/-- the k-th use is a first use: after ANY history, a call emits exactly what a freshly constructed twin
+    with the attributes now in force emits on that input -/
+theorem C06_history_call_as_fresh {A I : Type} (f : A → I → D) (ops : List (HOp A I)) (o : HObj A) (i : I) :
+    (HObj.run f o (ops ++ [.call i])).outs
+      = (HObj.run f o ops).outs ++ (HObj.run f (HObj.new (ops.foldl HOp.apply o.attrs)) [.call i]).outs := by
+  have h := C06_history_attrs f ops o
+  simp only [HObj.run, List.foldl_append, List.foldl_cons, List.foldl_nil, HObj.step, HObj.new,
+    List.nil_append] at h ⊢
+  rw [h]
+
+/-- earlier outputs are never rewritten by later operations -/
+theorem C06_history_outs_prefix {A I : Type} (f : A → I → D) (ops : List (HOp A I)) (o : HObj A) :
+    ∃ l, (HObj.run f o ops).outs = o.outs ++ l := by
+  induction ops generalizing o with
+  | nil => exact ⟨[], by simp [HObj.run]⟩
+  | cons op ops ih =>
+    obtain ⟨l, hl⟩ := ih (HObj.step f o op)
+    cases op with
+    | set g => exact ⟨l, by simpa [HObj.run, HObj.step] using hl⟩
+    | call i => exact ⟨f o.attrs i :: l, by simpa [HObj.run, HObj.step] using hl⟩
+
+/-- binary / ternary / stochastic_* (inference route) after ANY history — attribute assignments,
+    `_set_trainable_parameter()`, earlier calls on any tensors: the gradient of the next call is that of the
+    surrogate of the CURRENT alpha (tanh' iff it is None now, identity otherwise) and the value is the
+    quantized tensor -/
+theorem C06_binter_history_grad (th th' : ℚ → ℚ) (ops : List (HOp BTAlpha BTIn)) (a0 : BTAlpha) (x : ℚ) (xq : D) :
+    let now := ops.foldl HOp.apply a0
+    (HObj.run (btCall th th') (HObj.new a0) (ops ++ [.call ⟨D.var x, xq⟩])).outs.getLast?
+      = some (binTerD now.isNone th th' (D.var x) xq) ∧
+    (binTerD now.isNone th th' (D.var x) xq).tan = (if now.isNone then th' x else 1) ∧
+    (binTerD now.isNone th th' (D.var x) xq).val = xq.val := by
+  intro now
+  refine ⟨?_, C06_binter_grad _ th th' x xq, C06_binter_val _ th th' x xq⟩
+  rw [C06_history_call_as_fresh]
+  simp [HObj.run, HObj.step, HObj.new, btCall, now]
+
+/-- what every layer does to `ternary()` / `binary()`: constructed with alpha None, then
+    `_set_trainable_parameter()` — identity gradient, as for a fresh `alpha='auto_po2'` object -/
+theorem C06_binter_set_trainable_grad (th th' : ℚ → ℚ) (x : ℚ) (xq : D) :
+    (HObj.run (btCall th th') (HObj.new BTAlpha.none)
+        [.set BTAlpha.setTrainable, .call ⟨D.var x, xq⟩]).outs
+      = [binTerD false th th' (D.var x) xq] ∧
+    (binTerD false th th' (D.var x) xq).tan = 1 ∧
+    (HObj.run (btCall th th') (HObj.new BTAlpha.autoPo2) [.call ⟨D.var x, xq⟩]).outs
+      = [binTerD false th th' (D.var x) xq] := by
+  refine ⟨rfl, ?_, rfl⟩
+  simpa using C06_binter_grad false th th' x xq
+
+/-- the reverse: a constant alpha reset to None — tanh' -/
+theorem C06_binter_reset_none_grad (th th' : ℚ → ℚ) (c x : ℚ) (xq : D) :
+    (HObj.run (btCall th th') (HObj.new (BTAlpha.const c))
+        [.set (fun _ => BTAlpha.none), .call ⟨D.var x, xq⟩]).outs
+      = [binTerD true th th' (D.var x) xq] ∧
+    (binTerD true th th' (D.var x) xq).tan = th' x := by
+  refine ⟨rfl, ?_⟩
+  simpa using C06_binter_grad true th th' x xq
+
+/-- `_set_trainable_parameter()` is idempotent and leaves every scaled alpha alone -/
+theorem C06_setTrainable_idem (a : BTAlpha) :
+    a.setTrainable.setTrainable = a.setTrainable ∧ a.setTrainable.isNone = false ∧
+      (a.isNone = false → a.setTrainable = a) := by
+  cases a <;> simp [BTAlpha.setTrainable, BTAlpha.isNone]
+
+/-- the straight-through classes (quantized_bits / po2 / relu / relu_po2) after ANY history of `use_ste` /
+    `qnoise_factor` re-assignments: gradient `(1 | 1 − qf) · x_u'` and value `x_u + qf (xq − x_u)` for the
+    use_ste / qnoise_factor NOW in force -/
+theorem C06_ste_history_grad (ops : List (HOp SteAttrs SteIn)) (a0 : SteAttrs) (xu xq : D) :
+    let now := ops.foldl HOp.apply a0
+    (HObj.run steCall (HObj.new a0) (ops ++ [.call ⟨xu, xq⟩])).outs.getLast?
+      = some (steMix now.useSte now.qf xu xq) ∧
+    (steMix now.useSte now.qf xu xq).tan = (if now.useSte then 1 else 1 - now.qf) * xu.tan ∧
+    (steMix now.useSte now.qf xu xq).val = xu.val + now.qf * (xq.val - xu.val) := by
+  intro now
+  refine ⟨?_, C06_steMix_tan _ _ xu xq, C06_steMix_val _ _ xu xq⟩
+  rw [C06_history_call_as_fresh]
+  simp [HObj.run, HObj.step, HObj.new, steCall, now]
+
+/-- the mutated object (the option `__call__` uses captured at construction): every call of every history
+    uses the attributes of CONSTRUCTION time -/
+theorem C06_frozen_history {A I : Type} (f : A → I → D) (ops : List (HOp A I)) (o : HFrozen A) (i : I) :
+    (HFrozen.run f o ops).captured = o.captured ∧
+    (HFrozen.run f o (ops ++ [.call i])).outs = (HFrozen.run f o ops).outs ++ [f o.captured i] := by
+  have hc : ∀ (ops : List (HOp A I)) (o : HFrozen A), (HFrozen.run f o ops).captured = o.captured := by
+    intro ops
+    induction ops with
+    | nil => intro o; rfl
+    | cons op ops ih =>
+      intro o
+      simp only [HFrozen.run, List.foldl_cons] at ih ⊢
+      rw [ih]
+      cases op <;> rfl
+  refine ⟨hc ops o, ?_⟩
+  have := hc ops o
+  simp only [HFrozen.run, List.foldl_append, List.foldl_cons, List.foldl_nil, HFrozen.step] at this ⊢
+  rw [this]
+
+/-- … hence a fresh mutated object called once (no update in between) is indistinguishable from the real one:
+    the check needs histories that CHANGE the attribute -/
+theorem C06_frozen_agrees_fresh {A I : Type} (f : A → I → D) (a : A) (i : I) :
+    (HFrozen.run f (HFrozen.new a) [.call i]).outs = (HObj.run f (HObj.new a) [.call i]).outs := rfl
+
+/-- COUNTEREXAMPLE for the mutated object (seed C06-7): `ternary()`, then `_set_trainable_parameter()`, then a
+    call: it keeps `th' x` where the real object — and a fresh `alpha='auto_po2'` twin — has 1; they differ at
+    every point where `tanh' x ≠ 1`, i.e. everywhere but 0, although the forward values are equal -/
+theorem C06_binter_frozen_counterexample (th th' : ℚ → ℚ) (x : ℚ) (xq : D) (h : th' x ≠ 1) :
+    let ops : List (HOp BTAlpha BTIn) := [.set BTAlpha.setTrainable, .call ⟨D.var x, xq⟩]
+    let bad := (HFrozen.run (btCall th th') (HFrozen.new BTAlpha.none) ops).outs
+    let good := (HObj.run (btCall th th') (HObj.new BTAlpha.none) ops).outs
+    bad = [binTerD true th th' (D.var x) xq] ∧ good = [binTerD false th th' (D.var x) xq] ∧
+      (binTerD true th th' (D.var x) xq).tan ≠ (binTerD false th th' (D.var x) xq).tan ∧
+      (binTerD true th th' (D.var x) xq).val = (binTerD false th th' (D.var x) xq).val := by
+  refine ⟨rfl, rfl, ?_, ?_⟩
+  · rw [C06_binter_grad, C06_binter_grad]; simpa using h
+  · rw [C06_binter_val, C06_binter_val]
+
+-- non-vacuity: a history with an earlier call, the layer hook, a reset and another hook
+example : ((HObj.run (btCall (fun _ => 1 / 2) (fun _ => 3 / 4)) (HObj.new BTAlpha.none)
+    [.call ⟨D.var 1, D.const 1⟩, .set BTAlpha.setTrainable, .call ⟨D.var 1, D.const 2⟩,
+     .set (fun _ => BTAlpha.none), .call ⟨D.var 1, D.const 1⟩]).outs.map (·.tan)) = [3 / 4, 1, 3 / 4] := by
+  decide +kernel
+example : ((HFrozen.run (btCall (fun _ => 1 / 2) (fun _ => 3 / 4)) (HFrozen.new BTAlpha.none)
+    [.call ⟨D.var 1, D.const 1⟩, .set BTAlpha.setTrainable, .call ⟨D.var 1, D.const 2⟩]).outs.map (·.tan))
+    = [3 / 4, 3 / 4] := by decide +kernel
+
 end QKV.Props.C06
